@@ -161,10 +161,15 @@ func (d *Datastore) replaceIntent(ctx context.Context, transaction *types.Transa
 		return nil, err
 	}
 
-	// fast and optimistic writeback to the config store
+	// fast and optimistic writeback to the config store. The whole configuration of the device got
+	// replaced, so everything that has been in the running store is gone unless the replace intent restates it.
+	delPaths := deletes.PathSlices().ToStringSlice()
+	for _, u := range runningUpds {
+		delPaths = append(delPaths, u.GetPath())
+	}
 	err = d.cacheClient.Modify(ctx, d.Name(), &cache.Opts{
 		Store: cachepb.Store_CONFIG,
-	}, deletes.PathSlices().ToStringSlice(), root.GetHighestPrecedence(false).ToCacheUpdateSlice())
+	}, delPaths, root.GetHighestPrecedence(false).ToCacheUpdateSlice())
 	if err != nil {
 		return nil, fmt.Errorf("failed updating the running config store for %s: %w", d.Name(), err)
 	}
